@@ -6,6 +6,7 @@ from typing import TYPE_CHECKING
 from typing import Self
 
 from pest.grammar import Expression
+from pest.grammar.expressions.sequence import Sequence
 
 if TYPE_CHECKING:
     from pest.grammar.codegen.builder import Builder
@@ -166,41 +167,19 @@ class RepeatOnce(Expression):
     This corresponds to the `+` operator in pest.
     """
 
-    __slots__ = ("expression",)
+    __slots__ = ("expression", "_unrolled")
 
     def __init__(self, expression: Expression):
         super().__init__(None)
         self.expression = expression
+        self._unrolled = Sequence(expression, Repeat(expression))
 
     def __str__(self) -> str:
         return f"{self.tag_str()}{self.expression}+"
 
     def parse(self, state: ParserState, pairs: list[Pair]) -> bool:
-        state.checkpoint()
-        children: list[Pair] = []
-        matched = self.expression.parse(state, children)
-
-        if not matched:
-            state.restore()
-            return False
-
-        state.ok()
-        pairs.extend(children)
-        children.clear()
-
-        while True:
-            state.checkpoint()
-            state.parse_trivia(children)
-            matched = self.expression.parse(state, children)
-            if not matched:
-                state.restore()
-                break
-
-            state.ok()
-            pairs.extend(children)
-            children.clear()
-
-        return True
+        # `e+` is `e ~ e*`
+        return self._unrolled.parse(state, pairs)
 
     def generate(self, gen: Builder, matched_var: str, pairs_var: str) -> None:
         """Emit Python code for repeat one or more times."""
@@ -274,57 +253,21 @@ class RepeatExact(Expression):
     __slots__ = (
         "expression",
         "number",
+        "_unrolled",
     )
 
     def __init__(self, expression: Expression, number: int):
         super().__init__(None)
         self.expression = expression
         self.number = number
+        self._unrolled = Sequence(*[expression] * number)
 
     def __str__(self) -> str:
         return f"{self.expression}{{{self.number}}}"
 
     def parse(self, state: ParserState, pairs: list[Pair]) -> bool:
-        if self.number == 0:
-            return True
-
-        children: list[Pair] = []
-        accumulator: list[Pair] = []
-        match_count = 0
-        state.checkpoint()
-
-        matched = self.expression.parse(state, accumulator)
-
-        if not matched:
-            state.restore()
-            return False
-
-        match_count += 1
-
-        while True:
-            state.checkpoint()
-            state.parse_trivia(children)
-            matched = self.expression.parse(state, children)
-
-            if not matched:
-                state.restore()
-                break
-
-            match_count += 1
-            state.ok()
-            accumulator.extend(children)
-            children.clear()
-
-            if match_count == self.number:
-                break
-
-        if match_count == self.number:
-            pairs.extend(accumulator)
-            state.ok()
-            return True
-
-        state.restore()
-        return False
+        # `e{n}` is `e ~ e ~ ... ~ e`
+        return self._unrolled.parse(state, pairs)
 
     def generate(self, gen: Builder, matched_var: str, pairs_var: str) -> None:
         """Emit Python code for a bounded repetition expression (E{num})."""
@@ -387,51 +330,21 @@ class RepeatMin(Expression):
     __slots__ = (
         "expression",
         "number",
+        "_unrolled",
     )
 
     def __init__(self, expression: Expression, number: int):
         super().__init__(None)
         self.expression = expression
         self.number = number
+        self._unrolled = Sequence(*[expression] * number, Repeat(expression))
 
     def __str__(self) -> str:
         return f"{self.expression}{{{self.number},}}"
 
     def parse(self, state: ParserState, pairs: list[Pair]) -> bool:
-        children: list[Pair] = []
-        accumulator: list[Pair] = []
-        match_count = 0
-        state.checkpoint()
-
-        matched = self.expression.parse(state, accumulator)
-
-        if not matched:
-            state.restore()
-            return False
-
-        match_count += 1
-
-        while True:
-            state.checkpoint()
-            state.parse_trivia(children)
-            matched = self.expression.parse(state, children)
-
-            if not matched:
-                state.restore()
-                break
-
-            match_count += 1
-            state.ok()
-            accumulator.extend(children)
-            children.clear()
-
-        if match_count >= self.number:
-            pairs.extend(accumulator)
-            state.ok()
-            return True
-
-        state.restore()
-        return False
+        # `e{n,}` is `e ~ ... ~ e ~ e*`
+        return self._unrolled.parse(state, pairs)
 
     def generate(self, gen: Builder, matched_var: str, pairs_var: str) -> None:
         """Emit Python code for a bounded repetition expression (E{min,})."""
@@ -491,57 +404,21 @@ class RepeatMax(Expression):
     __slots__ = (
         "expression",
         "number",
+        "_unrolled",
     )
 
     def __init__(self, expression: Expression, number: int):
         super().__init__(None)
         self.expression = expression
         self.number = number
+        self._unrolled = Sequence(*[Optional(expression)] * number)
 
     def __str__(self) -> str:
         return f"{self.expression}{{,{self.number}}}"
 
     def parse(self, state: ParserState, pairs: list[Pair]) -> bool:
-        if self.number == 0:
-            return True
-
-        children: list[Pair] = []
-        accumulator: list[Pair] = []
-        match_count = 0
-        state.checkpoint()
-
-        matched = self.expression.parse(state, accumulator)
-
-        if not matched:
-            state.restore()
-            return False
-
-        match_count += 1
-
-        while True:
-            state.checkpoint()
-            state.parse_trivia(children)
-            matched = self.expression.parse(state, children)
-
-            if not matched:
-                state.restore()
-                break
-
-            match_count += 1
-            state.ok()
-            accumulator.extend(children)
-            children.clear()
-
-            if match_count == self.number:
-                break
-
-        if match_count <= self.number:
-            pairs.extend(accumulator)
-            state.ok()
-            return True
-
-        state.restore()
-        return False
+        # `e{,n}` is `e? ~ e? ~ ... ~ e?`
+        return self._unrolled.parse(state, pairs)
 
     def generate(self, gen: Builder, matched_var: str, pairs_var: str) -> None:
         """Emit Python code for a bounded repetition expression (E{,max})."""
@@ -595,6 +472,7 @@ class RepeatMinMax(Expression):
         "expression",
         "min",
         "max",
+        "_unrolled",
     )
 
     def __init__(self, expression: Expression, min_: int, max_: int):
@@ -602,48 +480,16 @@ class RepeatMinMax(Expression):
         self.expression = expression
         self.min = min_
         self.max = max_
+        self._unrolled = Sequence(
+            *[expression] * min_, *[Optional(expression)] * (max_ - min_)
+        )
 
     def __str__(self) -> str:
         return f"{self.expression}{{{self.min}, {self.max}}}"
 
     def parse(self, state: ParserState, pairs: list[Pair]) -> bool:
-        children: list[Pair] = []
-        accumulator: list[Pair] = []
-        match_count = 0
-        state.checkpoint()
-
-        matched = self.expression.parse(state, accumulator)
-
-        if not matched:
-            state.restore()
-            return False
-
-        match_count += 1
-
-        while True:
-            state.checkpoint()
-            state.parse_trivia(children)
-            matched = self.expression.parse(state, children)
-
-            if not matched:
-                state.restore()
-                break
-
-            match_count += 1
-            state.ok()
-            accumulator.extend(children)
-            children.clear()
-
-            if match_count == self.max:
-                break
-
-        if match_count >= self.min and match_count <= self.max:
-            pairs.extend(accumulator)
-            state.ok()
-            return True
-
-        state.restore()
-        return False
+        # `e{m,n}` is `e ~ ... ~ e ~ e? ~ ... ~ e?`
+        return self._unrolled.parse(state, pairs)
 
     def generate(self, gen: Builder, matched_var: str, pairs_var: str) -> None:
         """Emit Python code for a bounded repetition expression (E{min,max})."""
